@@ -23,7 +23,7 @@ namespace TD.C06
 
 inductive Err where
   | negLen | fracFrames | overrun | indexError | logPass | logPassCtor | zeroDiv | frameSet | fileRead
-  | repCode | lr | dsb | cbInit | assertion | typeError | attributeError | unsupported
+  | repCode | lr | dsb | cbInit | assertion | typeError | unsupported
   deriving Repr, DecidableEq
 
 /-! ## Representation code sizes (`pRepCode.RC_SIZE_MAP`, `wordLength`) -/
@@ -259,11 +259,11 @@ def add (it : Item01) (tell : Int) (n : Nat) (x : Int) : Option Item01 :=
   | none => none
   | some p' => some { it with pos := p', xs := rleAdd it.xs x }
 def totalFrames (it : Item01) : Nat := it.numFrames * (it.pos.rep + 1)
-/-- `RLEItemType01.tellLrForFrame(fNum)`: `(fNum', lrSeek or None)`; note the `<=` of the code -/
+/-- `RLEItemType01.tellLrForFrame(fNum)`: `(fNum', lrSeek or None)`; note the `<=` of the code; records without
+frames hold no frame number -/
 def tellLrForFrame (it : Item01) (fNum : Nat) : Except Err (Nat × Option Int) :=
-  if fNum ≤ it.totalFrames then
-    if it.numFrames = 0 then .error .zeroDiv
-    else .ok (fNum % it.numFrames, (it.pos.value (fNum / it.numFrames)).2)
+  if it.numFrames = 0 then .ok (fNum, none) else
+  if fNum ≤ it.totalFrames then .ok (fNum % it.numFrames, (it.pos.value (fNum / it.numFrames)).2)
   else .ok (fNum - it.totalFrames, none)
 end Item01
 
@@ -364,7 +364,6 @@ structure LogPass where
   xAxisIndex : Nat
   rle : List Item01
   frameSet : Option FrameSet
-  fsDeleted : Bool            -- `del self._frameSet` was executed and the attribute never re-assigned
   deriving Repr, DecidableEq
 
 def LogPass.isIndirectX (lp : LogPass) : Bool := lp.dfsr.recMode = 1
@@ -375,7 +374,7 @@ def LogPass.new (d : Dfsr) (xAxisIndex : Nat) : Except Err LogPass :=
   else if xAxisIndex ≥ d.chans.length then .error .logPassCtor
   else match d.plan with
     | .error e => .error e
-    | .ok p => .ok ⟨d, p, xAxisIndex, [], none, false⟩
+    | .ok p => .ok ⟨d, p, xAxisIndex, [], none⟩
 
 /-- `addType01Data(tellLr, lrType, lrLen, xAxisVal)` -/
 def LogPass.addType01Data (lp : LogPass) (tell : Nat) (lrType : Nat) (lrLen : Nat) (x : Int) : Except Err LogPass :=
@@ -641,16 +640,15 @@ def slOrAll (sl : Option Sl) (total : Nat) : Sl :=
   | none => ⟨0, total, 1⟩
 
 /-- `setFrameSet(theFile, theFrSl, theChList)`: new log pass state and the file operations performed (or the
-exception).  The state is returned in the error case too: `del self._frameSet` followed by a failing `FrameSet(...)`
-leaves the object without the attribute, and every later call then raises `AttributeError`. -/
+exception).  The state is returned in the error case too: `self._frameSet = None` is executed before `FrameSet(...)`,
+so a failing constructor leaves `None`; a failure later leaves the (partially filled) new frame set. -/
 def setFrameSet (lp : LogPass) (st : Store) (sl : Option Sl) (chList : Option (List Nat)) :
     LogPass × Except Err (List Op) :=
   let total := rle01Total lp.rle
   if total = 0 then (lp, .error .logPass) else
   let mySl : Sl := slOrAll sl total
-  if lp.fsDeleted then (lp, .error .attributeError) else
   match FrameSet.new lp.dfsr mySl chList lp.xAxisIndex with
-  | .error e => ({ lp with frameSet := none, fsDeleted := true }, .error e)
+  | .error e => ({ lp with frameSet := none }, .error e)
   | .ok fs =>
     if fs.nFrames = 0 then ({ lp with frameSet := some fs }, .ok []) else
     match genFrameSetEvents lp mySl fs.chIdx with
